@@ -441,4 +441,6 @@ async fn main() {
     }
     let p = sh.path.clone(); drop(sh); let _ = std::fs::remove_dir_all(&p);
     out.finish();
+    // leave without tearing down the runtime, the database threads and the room tasks still waiting on their timeouts
+    std::process::exit(0);
 }
